@@ -36,6 +36,7 @@ def run(v):
         subprocess.run(["rsync", "-a", "--exclude=.git", "/repo/", src + "/"], check=True)
         os.makedirs(vd + "/evidence")
         shutil.copy(f"{ROOT}/known_findings.jsonl", vd)
+        os.symlink(f"{ROOT}/bin", vd + "/bin")
         p = subprocess.run(["patch", "-p1", "-s", "--no-backup-if-mismatch", "-i", patch], cwd=src, stdout=subprocess.PIPE, stderr=subprocess.STDOUT, text=True)
         if p.returncode != 0:
             return (pid, name, "SKIP(patch does not apply)", p.stdout.strip()[:200])
